@@ -21,7 +21,10 @@ import time
 import warnings
 from fractions import Fraction as Fr
 
+import os
+
 import core
+import translate_np
 from core import GenError, CorrResult, Prop
 
 XYZ = [(0, 0, 0), (1, 0, 0), (1, 1, 0), (0, 1, 0), (0, 0, 1), (1, 0, 1), (1, 1, 1), (0, 1, 1)]
@@ -952,14 +955,69 @@ def parse_lists(so, n):
     return out
 
 
+# ------------------------------------------------------------------------------------------------
+# the source itself: what harness/translate_np.py translates for this property (python ast -> Gallina, fail closed)
+
+SRC_MODULES = {
+    "classy_blocks.util.functions": "util/functions.py",
+    "classy_blocks.modify.find.finder": "modify/find/finder.py",
+    "classy_blocks.modify.find.geometric": "modify/find/geometric.py",
+}
+_F, _FB, _GF = list(SRC_MODULES)
+# a finder is read as the object whose attribute self.mesh.vertices is a list of objects, each represented by its
+# attribute .position (a vec): the representation of Model/C18_Finder.v
+_FINDER = {"mesh.vertices": ("objects", "position")}
+# (kind, module, class | None, function, {parameter: type}, Gallina name); callees before callers
+SRC_ENTRIES = [
+    ("fun", _F, None, "norm", {"matrix": "vec"}, "src_norm"),
+    ("fun", _F, None, "unit_vector", {"vect": "vec"}, "src_unit_vector"),
+    ("fun", _F, None, "point_to_plane_distance", {"origin": "vec", "normal": "vec", "point": "vec"}, "src_point_to_plane_distance"),
+    ("fun", _F, None, "is_point_on_plane", {"origin": "vec", "normal": "vec", "point": "vec"}, "src_is_point_on_plane"),
+    ("meth", _FB, "FinderBase", "_find_by_position", {"position": "vec", "radius": "real"}, "src_find_by_position"),
+    ("meth", _FB, "FinderBase", "_find_by_position", {"position": "vec", "radius": None}, "src_find_by_position_default"),
+    ("meth", _GF, "GeometricFinder", "find_in_sphere", {"position": "vec", "radius": "real"}, "src_find_in_sphere"),
+    ("meth", _GF, "GeometricFinder", "find_in_sphere", {"position": "vec", "radius": None}, "src_find_in_sphere_default"),
+    ("meth", _GF, "GeometricFinder", "find_on_plane", {"point": "vec", "normal": "vec"}, "src_find_on_plane"),
+]
+
+
+def translate_source():
+    """-> (text of Gen/C18/Source.v, the translator)"""
+    root = os.path.join(core.REPO, "src", "classy_blocks")
+    tr = translate_np.Translator({m: os.path.join(root, rel) for m, rel in SRC_MODULES.items()})
+    for (kind, m, cls, f, sig, coq) in SRC_ENTRIES:
+        if kind == "fun":
+            got = tr.entry(m, f, sig, coq=coq)
+        else:
+            got = tr.entry_method(m, cls, f, sig, attrs=_FINDER, coq=coq)
+        if got != coq:
+            raise GenError("%s.%s was translated as %s, not as the entry %s" % (cls or m, f, got, coq))
+    text = tr.source_text("C18: " + ", ".join("%s.%s" % (cls or m.split(".")[-1], f) for (_k, m, cls, f, _s, _c) in SRC_ENTRIES)
+                          + " of the working tree of /repo.")
+    return text, tr
+
+
 class C18(Prop):
     pid = "C18"
     title = "Finders are exact; viewpoint re-orientation canonicalises block numbering"
-    prebuilt = ["Base/Hex.v", "Base/Vec3.v", "Model/C18_Finder.v", "Model/C18_RoundSpec.v", "Model/C18_Reorient.v",
+    prebuilt = ["Base/Hex.v", "Base/Vec3.v", "Proofs/SourceEqTac.v", "Model/C18_Finder.v", "Model/C18_RoundSpec.v", "Model/C18_Reorient.v",
                 "Proofs/C18_Finder.v", "Proofs/C18_Reorient.v", "Proofs/C18_Exact.v", "Proofs/C18_ExactAlign.v"]
-    gen_dependent_files = ["Gen/C18/Tables.v"]
+    gen_dependent_files = ["Gen/C18/Tables.v", "Gen/C18/Source.v", "Proofs/C18_SourceEq.v"]
     property_files = ["Properties/C18.v"]
     trusted = [
+        "the numpy-vector AST translator harness/translate_np.py (functions.py: norm, unit_vector, point_to_plane_distance, "
+        "is_point_on_plane; finder.py: the whole method FinderBase._find_by_position, loop included, for a given radius and for "
+        "radius=None; geometric.py: GeometricFinder.find_in_sphere, find_on_plane -> Gen/C18/Source.v; Proofs/C18_SourceEq.v proves "
+        "translated source = Model/C18_Finder.v for all arguments on every run, theorem C18_source_is_model, the plane finder for "
+        "every non-zero normal). Its fragment: " + translate_np.FRAGMENT + ".  Its reading of python / numpy is what is trusted: "
+        "floats as reals; unit_vector of the zero normal (numpy: nan and a RuntimeWarning) as 'no value' (None), the lemmas carry "
+        "n <> 0; a finder is read as its list self.mesh.vertices and a vertex as its .position; `acc = set(); for v in l: if "
+        "TEST: acc.add(v); return acc` is read as the sub-list of l selected by TEST (a set of vertices = sub-list of the vertex "
+        "list, as in Model/C18_Finder.v); `x is None` is decided by the declared kind of the argument; self.m(...) is the m an "
+        "instance of exactly that class calls (single inheritance, checked against __bases__ at run time); run-time tie: the "
+        "functions / methods the library calls are the parsed ones (file, first line) and np / f / constants are the modules assumed",
+        "hand-written model Model/C18_Finder.v: for the sphere and plane finders no longer trusted (proved equal to the translated "
+        "source); the round finder and the re-orienter models remain tied by tabulation / sampled kernel-decided agreement",
         "scipy.spatial.ConvexHull (Qhull) is an oracle: its simplices are recorded and given to the model; monitored "
         "assumption: 12 triangles, every geometric face of the convex hexahedron covered by exactly two",
         "the order in which sorted() puts the twelve triangles is given to the discrete model as an oracle computed by the "
@@ -985,6 +1043,11 @@ class C18(Prop):
         crows = tab_cube()
         ctx.write_gen("Tables", emit_tables(tol, rrows, crows))
         self._tabs = (tol, rrows, crows)
+        # the source itself: python -> Gallina (fail closed), proved equal to the model by Proofs/C18_SourceEq.v
+        text, tr = translate_source()
+        tr.tie_to_runtime()
+        ctx.write_gen("Source", text)
+        ctx.log("S1: finder code translated: %d definitions (%s)" % (len(tr.summary), ", ".join(d["coq"] for d in tr.summary)))
 
     # -- S3 ---------------------------------------------------------------------------------------
     def correspond(self, ctx):
@@ -992,7 +1055,10 @@ class C18(Prop):
         rng = ctx.rng
         tol = get_tol()
         t_py = time.time()
-        res.rule = ("(a) random meshes of boxes/cylinders/frusta with sphere and plane queries: for every vertex (boundary "
+        res.rule = ("[sphere / plane finders: the model is proved equal to the translated source for all arguments "
+                    "(Proofs/C18_SourceEq.v); the samples of (a) validate the translator's reading of numpy float semantics and of "
+                    "the vertex loop] "
+                    "(a) random meshes of boxes/cylinders/frusta with sphere and plane queries: for every vertex (boundary "
                     "cases within 1e-9 of a threshold excluded) the verdict of the real-valued model, decided exactly on the "
                     "integer mantissas (Proofs/C18_Exact.v, vm_compute) = membership in the returned set; non-trivial = result "
                     "neither empty nor everything; (b) random round shapes x both ends: model and disk specification "
